@@ -168,12 +168,12 @@ def oracle(ctx):
                     continue
                 for k in range(-40, 41):
                     x = datetime.date(y, m, dd)
-                    res = x + relativedelta(months=k)
+                    res = L.run(lambda: x + relativedelta(months=k), L.t_wire)
                     M = 12 * y + (m - 1) + k
                     ey, em = M // 12, M % 12 + 1
                     ed = min(dd, calendar.monthrange(ey, em)[1])
                     ctx.case(("clip", y, m, dd, k)); ctx.count("clip_grid")
-                    if (res.year, res.month, res.day) != (ey, em, ed):
+                    if res != "ok d %d %d %d 0 0 0 0" % (ey, em, ed):
                         ctx.violation("month shift spilled / mis-clipped: %s + %d months = %s" % (x, k, res),
                                       {"law": "clip", "x": L.t_wire(x), "kw": {"months": k}})
     # yearday / nlyearday: the documented meaning, independently of the conversion table
